@@ -12,11 +12,14 @@ use std::{string::String, vec::Vec};
 use crate::{BumpBox, FixedBumpVec};
 
 pub(crate) const CAP: usize = 5;
+pub(crate) const CAP6: usize = 6;
 pub(crate) const MAXLEN: usize = 4;
 
 /// symbolic contents: `len` symbolic values
 pub(crate) struct Sym {
     pub vals: [u8; CAP],
+    /// six symbolic values (for the concrete-length split_off obligations)
+    pub vals6: [u8; CAP6],
     pub len: usize,
 }
 
@@ -24,10 +27,10 @@ impl Sym {
     pub(crate) fn any() -> Self {
         let len: usize = kani::any();
         kani::assume(len <= MAXLEN);
-        Sym { vals: kani::any(), len }
+        Sym { vals: kani::any(), vals6: kani::any(), len }
     }
     pub(crate) fn with_len(len: usize) -> Self {
-        Sym { vals: kani::any(), len }
+        Sym { vals: kani::any(), vals6: kani::any(), len }
     }
     pub(crate) fn oracle(&self) -> Vec<u8> {
         let mut v = Vec::with_capacity(CAP + 1);
@@ -428,6 +431,93 @@ pub(crate) fn split_off_first_last_and_spare() {
     kani::cover!(op == 0 && s.len >= 2, "first");
 }
 
+/// `split_off` for EVERY range of a slice of the given length, with symbolic element values but CONCRETE
+/// length and range (the element rotation inside `split_off` has only concrete control flow then, which
+/// CBMC executes quickly; with symbolic ranges it did not finish).  Complete over ranges for this length.
+pub(crate) fn split_off_every_range(len: usize, fixed_vec: bool) {
+    let mut lo = 0;
+    while lo <= len {
+        let mut hi = lo;
+        while hi <= len {
+            let s = Sym::with_len(len);
+            let mut buf = [MaybeUninit::uninit(); CAP6];
+            let base = buf.as_ptr() as usize;
+            let mut i = 0;
+            while i < len {
+                buf[i] = MaybeUninit::new(s.vals6[i]);
+                i += 1;
+            }
+            if fixed_vec {
+                let b: BumpBox<'_, [MaybeUninit<u8>]> =
+                    unsafe { BumpBox::from_raw(NonNull::slice_from_raw_parts(NonNull::new_unchecked(buf.as_mut_ptr()), CAP6)) };
+                let mut v = FixedBumpVec::from_uninit(b);
+                unsafe { v.set_len(len) };
+                let part = v.split_off(lo..hi);
+                kani::assert(part.len() == hi - lo && v.len() == len - (hi - lo), "C16.fixed_split_off.lengths_add_up");
+                kani::assert(part.capacity() + v.capacity() == CAP6 && part.capacity() >= part.len() && v.capacity() >= v.len(), "C16.fixed_split_off.capacities_add_up");
+                let mut j = 0;
+                while j < len {
+                    if j < part.len() {
+                        kani::assert(part[j] == s.vals6[lo + j], "C16.fixed_split_off.part_is_the_range_in_order");
+                    }
+                    if j < v.len() {
+                        let src = if j < lo { j } else { j + (hi - lo) };
+                        kani::assert(v[j] == s.vals6[src], "C16.fixed_split_off.rest_keeps_order");
+                    }
+                    j += 1;
+                }
+                let (pa, pe) = (part.as_ptr() as usize, part.as_ptr() as usize + part.capacity());
+                let (ra, re) = (v.as_ptr() as usize, v.as_ptr() as usize + v.capacity());
+                kani::assert(part.capacity() == 0 || v.capacity() == 0 || pe <= ra || re <= pa, "C16.fixed_split_off.buffers_disjoint");
+                kani::assert((part.capacity() == 0 || (pa >= base && pe <= base + CAP6)) && (v.capacity() == 0 || (ra >= base && re <= base + CAP6)), "C16.fixed_split_off.buffers_inside_original");
+                core::mem::forget(part);
+                core::mem::forget(v);
+            } else {
+                let mut b: BumpBox<'_, [u8]> =
+                    unsafe { BumpBox::from_raw(NonNull::slice_from_raw_parts(NonNull::new_unchecked(buf.as_mut_ptr().cast::<u8>()), len)) };
+                let part = b.split_off(lo..hi);
+                kani::assert(part.len() == hi - lo && b.len() == len - (hi - lo), "C16.split_off.lengths_add_up");
+                let mut j = 0;
+                while j < len {
+                    if j < part.len() {
+                        kani::assert(part[j] == s.vals6[lo + j], "C16.split_off.part_is_the_range_in_order");
+                    }
+                    if j < b.len() {
+                        let src = if j < lo { j } else { j + (hi - lo) };
+                        kani::assert(b[j] == s.vals6[src], "C16.split_off.rest_keeps_order");
+                    }
+                    j += 1;
+                }
+                let (pa, pe) = (part.as_ptr() as usize, part.as_ptr() as usize + part.len());
+                let (ra, re) = (b.as_ptr() as usize, b.as_ptr() as usize + b.len());
+                if part.len() > 0 && b.len() > 0 {
+                    kani::assert(pe == ra || re == pa, "C16.split_off.parts_adjacent");
+                }
+                kani::assert((part.len() == 0 || (pa >= base && pe <= base + len)) && (b.len() == 0 || (ra >= base && re <= base + len)), "C16.split_off.parts_inside_original");
+                core::mem::forget(part);
+                core::mem::forget(b);
+            }
+            hi += 1;
+        }
+        lo += 1;
+    }
+    kani::cover!(true, "all-ranges-done");
+}
+
+macro_rules! split_off_inst {
+    ($($name:ident = ($len:literal, $fv:literal)),*) => {
+        $(
+            #[kani::proof]
+            #[kani::unwind(9)]
+            pub(crate) fn $name() {
+                split_off_every_range($len, $fv);
+            }
+        )*
+    };
+}
+split_off_inst!(split_off_all_ranges_len3 = (3, false), split_off_all_ranges_len4 = (4, false), split_off_all_ranges_len5 = (5, false), split_off_all_ranges_len6 = (6, false),
+                fixed_split_off_all_ranges_len4 = (4, true), fixed_split_off_all_ranges_len5 = (5, true), fixed_split_off_all_ranges_len6 = (6, true));
+
 pub(crate) fn fixed_vec_split_off_capacity(len: usize) {
     let s = Sym::with_len(len);
     let mut buf = [MaybeUninit::uninit(); CAP];
@@ -649,6 +739,272 @@ impl SymStr {
     }
 }
 
+/// Symbolic text with a CONCRETE byte-length pattern: character i has `pat[i]` bytes (1..=4, 0 = absent), its bytes
+/// are symbolic within the well-formed ranges of that length class (so every scalar value of that length occurs).
+pub(crate) fn sym_text(pat: [usize; 2]) -> SymStr {
+    let mut bytes = [0u8; SCAP];
+    let mut len = 0;
+    let mut i = 0;
+    while i < 2 {
+        let n = pat[i];
+        if n == 1 {
+            let b: u8 = kani::any();
+            kani::assume(b < 0x80);
+            bytes[len] = b;
+        } else if n == 2 {
+            let (b0, b1): (u8, u8) = (kani::any(), kani::any());
+            kani::assume(b0 >= 0xC2 && b0 <= 0xDF && b1 & 0xC0 == 0x80);
+            bytes[len] = b0;
+            bytes[len + 1] = b1;
+        } else if n == 3 {
+            let (b0, b1, b2): (u8, u8, u8) = (kani::any(), kani::any(), kani::any());
+            kani::assume(b0 >= 0xE0 && b0 <= 0xEF && b1 & 0xC0 == 0x80 && b2 & 0xC0 == 0x80);
+            kani::assume(b0 != 0xE0 || b1 >= 0xA0); // no overlong
+            kani::assume(b0 != 0xED || b1 <= 0x9F); // no surrogates
+            bytes[len] = b0;
+            bytes[len + 1] = b1;
+            bytes[len + 2] = b2;
+        } else if n == 4 {
+            let (b0, b1, b2, b3): (u8, u8, u8, u8) = (kani::any(), kani::any(), kani::any(), kani::any());
+            kani::assume(b0 >= 0xF0 && b0 <= 0xF4 && b1 & 0xC0 == 0x80 && b2 & 0xC0 == 0x80 && b3 & 0xC0 == 0x80);
+            kani::assume(b0 != 0xF0 || b1 >= 0x90);
+            kani::assume(b0 != 0xF4 || b1 <= 0x8F);
+            bytes[len] = b0;
+            bytes[len + 1] = b1;
+            bytes[len + 2] = b2;
+            bytes[len + 3] = b3;
+        }
+        len += n;
+        i += 1;
+    }
+    SymStr { bytes, len }
+}
+
+/// String operations against std::string::String for a concrete length pattern and a CONCRETE byte index / range
+/// (every index 0..=len is enumerated), symbolic scalar values.
+pub(crate) fn str_ops_every_index(pat: [usize; 2]) {
+    let total = pat[0] + pat[1];
+    let mut idx = 0;
+    while idx <= total {
+        let s = sym_text(pat);
+        let boundary = idx == 0 || idx == pat[0] || idx == total;
+        // truncate / split_off(idx..) / remove at idx / pop
+        if boundary {
+            let mut buf = [0u8; SCAP];
+            let mut b = str_box(&mut buf, &s);
+            let mut m = String::from(s.as_str());
+            b.truncate(idx);
+            m.truncate(idx);
+            kani::assert(same(b.as_bytes(), m.as_bytes()) && valid_utf8(b.as_bytes()), "C09.box_str.truncate.same_as_std_and_valid");
+            core::mem::forget(b);
+
+            let mut buf = [0u8; SCAP];
+            let mut b = str_box(&mut buf, &s);
+            let part = b.split_off(idx..);
+            let mut m = String::from(s.as_str());
+            let tail = m.split_off(idx);
+            kani::assert(same(b.as_bytes(), m.as_bytes()) && same(part.as_bytes(), tail.as_bytes()), "C09.box_str.split_off.same_as_std");
+            kani::assert(valid_utf8(b.as_bytes()) && valid_utf8(part.as_bytes()), "C09.box_str.split_off.both_valid_utf8");
+            core::mem::forget(part);
+            core::mem::forget(b);
+
+            if idx < total {
+                let mut buf = [0u8; SCAP];
+                let mut b = str_box(&mut buf, &s);
+                let mut m = String::from(s.as_str());
+                kani::assert(b.remove(idx) == m.remove(idx), "C09.box_str.remove.returns_same_char");
+                kani::assert(same(b.as_bytes(), m.as_bytes()) && valid_utf8(b.as_bytes()), "C09.box_str.remove.same_as_std_and_valid");
+                core::mem::forget(b);
+            }
+        }
+        idx += 1;
+    }
+    let s = sym_text(pat);
+    let mut buf = [0u8; SCAP];
+    let mut b = str_box(&mut buf, &s);
+    let mut m = String::from(s.as_str());
+    kani::assert(b.pop() == m.pop(), "C09.box_str.pop.returns_same_char");
+    kani::assert(same(b.as_bytes(), m.as_bytes()) && valid_utf8(b.as_bytes()), "C09.box_str.pop.same_as_std_and_valid");
+    kani::assert(b.pop() == m.pop() && same(b.as_bytes(), m.as_bytes()), "C09.box_str.pop_twice.same_as_std");
+    core::mem::forget(b);
+    kani::cover!(true, "all-indices-done");
+}
+
+macro_rules! str_pat_inst {
+    ($f:ident: $($name:ident = [$a:literal, $b:literal]),*) => {
+        $(
+            #[kani::proof]
+            #[kani::unwind(12)]
+            pub(crate) fn $name() {
+                $f([$a, $b]);
+            }
+        )*
+    };
+}
+str_pat_inst!(str_ops_every_index:
+    str_ops_pat_1_0 = [1, 0], str_ops_pat_2_0 = [2, 0], str_ops_pat_3_0 = [3, 0], str_ops_pat_4_0 = [4, 0],
+    str_ops_pat_1_1 = [1, 1], str_ops_pat_1_2 = [1, 2], str_ops_pat_1_3 = [1, 3], str_ops_pat_1_4 = [1, 4],
+    str_ops_pat_2_1 = [2, 1], str_ops_pat_2_2 = [2, 2], str_ops_pat_2_3 = [2, 3], str_ops_pat_2_4 = [2, 4],
+    str_ops_pat_3_1 = [3, 1], str_ops_pat_3_2 = [3, 2], str_ops_pat_3_3 = [3, 3], str_ops_pat_3_4 = [3, 4],
+    str_ops_pat_4_1 = [4, 1], str_ops_pat_4_2 = [4, 2], str_ops_pat_4_3 = [4, 3], str_ops_pat_4_4 = [4, 4]);
+
+/// FixedBumpString growing operations against std::string::String (capacity SCAP bytes): push, push_str, insert,
+/// insert_str, replace_range, extend_from_within at every boundary index; when the result does not fit the
+/// capacity the try_ method reports an error and the contents are unchanged (C07).
+pub(crate) fn fixed_str_grow_ops(pat: [usize; 2]) {
+    use crate::FixedBumpString;
+    let total = pat[0] + pat[1];
+    let ins = sym_text([pat[1], 0]); // text to insert: one char of the second class
+    let c = ins.as_str().chars().next();
+    let mut idx = 0;
+    while idx <= total {
+        if idx == 0 || idx == pat[0] || idx == total {
+            let s = sym_text(pat);
+            let mut ops = 0;
+            while ops < 4 {
+                let mut buf = [MaybeUninit::<u8>::uninit(); SCAP];
+                let mut j = 0;
+                while j < s.len {
+                    buf[j] = MaybeUninit::new(s.bytes[j]);
+                    j += 1;
+                }
+                let raw: BumpBox<'_, [MaybeUninit<u8>]> =
+                    unsafe { BumpBox::from_raw(NonNull::slice_from_raw_parts(NonNull::new_unchecked(buf.as_mut_ptr()), SCAP)) };
+                let mut v = FixedBumpVec::from_uninit(raw);
+                unsafe { v.set_len(s.len) };
+                let mut f = unsafe { FixedBumpString::from_utf8_unchecked(v) };
+                let mut m = String::from(s.as_str());
+                let fits;
+                let r = match ops {
+                    0 => {
+                        fits = s.len + ins.len <= SCAP;
+                        if let Some(c) = c {
+                            if fits {
+                                m.insert(idx, c);
+                            }
+                            f.try_insert(idx, c).is_ok()
+                        } else {
+                            fits
+                        }
+                    }
+                    1 => {
+                        fits = s.len + ins.len <= SCAP;
+                        if fits {
+                            m.insert_str(idx, ins.as_str());
+                        }
+                        f.try_insert_str(idx, ins.as_str()).is_ok()
+                    }
+                    2 => {
+                        fits = s.len + ins.len <= SCAP;
+                        if fits {
+                            m.push_str(ins.as_str());
+                        }
+                        f.try_push_str(ins.as_str()).is_ok()
+                    }
+                    _ => {
+                        // replace the first char by the inserted text
+                        fits = s.len - pat[0] + ins.len <= SCAP;
+                        if fits {
+                            m.replace_range(0..pat[0], ins.as_str());
+                        }
+                        f.try_replace_range(0..pat[0], ins.as_str()).is_ok()
+                    }
+                };
+                kani::assert(r == fits, "C09.fixed_str.try_op_succeeds_iff_it_fits");
+                kani::assert(same(f.as_bytes(), m.as_bytes()), "C09.fixed_str.same_as_std_or_unchanged_on_error");
+                kani::assert(valid_utf8(f.as_bytes()), "C09.fixed_str.valid_utf8");
+                kani::assert(f.capacity() == SCAP && f.len() <= SCAP, "C08.fixed_str.capacity_fixed");
+                core::mem::forget(f);
+                ops += 1;
+            }
+        }
+        idx += 1;
+    }
+    kani::cover!(true, "all-indices-done");
+}
+
+str_pat_inst!(fixed_str_grow_ops:
+    fixed_str_grow_pat_1_2 = [1, 2], fixed_str_grow_pat_3_1 = [3, 1], fixed_str_grow_pat_2_4 = [2, 4], fixed_str_grow_pat_4_3 = [4, 3], fixed_str_grow_pat_4_4 = [4, 4]);
+
+/// An index that is out of range or not on a character boundary makes truncate / split_off / remove / insert panic
+/// (symbolic index over all non-boundary positions of a concrete length pattern).
+pub(crate) fn str_bad_index_panics(pat: [usize; 2]) {
+    let total = pat[0] + pat[1];
+    let s = sym_text(pat);
+    let mut buf = [0u8; SCAP];
+    let mut b = str_box(&mut buf, &s);
+    let idx: usize = kani::any();
+    kani::assume(idx <= total + 1);
+    let boundary = idx == 0 || idx == pat[0] || idx == total;
+    let op: u8 = kani::any();
+    kani::assume(op < 3);
+    match op {
+        0 => {
+            // truncate beyond the length is a no-op (as in std); inside the string a non-boundary panics
+            kani::assume(!boundary && idx < total);
+            b.truncate(idx);
+        }
+        1 => {
+            kani::assume(!boundary);
+            let _ = b.split_off(idx..);
+        }
+        _ => {
+            // remove: idx == len is out of range as well
+            kani::assume(!boundary || idx == total);
+            let _ = b.remove(idx);
+        }
+    }
+    kani::cover!(true, "must-not-reach: a string operation returned on an out-of-range or non-boundary index");
+    core::mem::forget(b);
+}
+
+macro_rules! str_panic_inst {
+    ($($name:ident = [$a:literal, $b:literal]),*) => {
+        $(
+            #[kani::proof]
+            #[kani::unwind(12)]
+            #[kani::should_panic]
+            pub(crate) fn $name() {
+                str_bad_index_panics([$a, $b]);
+            }
+        )*
+    };
+}
+str_panic_inst!(str_bad_index_pat_2_3 = [2, 3], str_bad_index_pat_4_1 = [4, 1], str_bad_index_pat_3_4 = [3, 4], str_bad_index_pat_1_2 = [1, 2]);
+
+/// `BumpBox::<str>::from_utf8` accepts exactly the byte strings `core::str::from_utf8` accepts (all byte strings of the given length).
+pub(crate) fn from_utf8_matches_std(len: usize) {
+    let bytes: [u8; 4] = kani::any();
+    let mut buf = bytes;
+    let b: BumpBox<'_, [u8]> = unsafe { BumpBox::from_raw(NonNull::slice_from_raw_parts(NonNull::new_unchecked(buf.as_mut_ptr()), len)) };
+    let std_ok = core::str::from_utf8(&bytes[..len]).is_ok();
+    let r = BumpBox::from_utf8(b);
+    kani::assert(r.is_ok() == std_ok, "C09.from_utf8.accepts_exactly_valid_utf8");
+    kani::assert(std_ok == valid_utf8(&bytes[..len]), "C09.validator_agrees_with_std");
+    kani::cover!(std_ok && len > 0 && bytes[0] >= 0x80, "valid-multibyte");
+    kani::cover!(!std_ok, "invalid");
+    match r {
+        Ok(s) => core::mem::forget(s),
+        Err(e) => core::mem::forget(e),
+    }
+}
+
+#[kani::proof]
+#[kani::unwind(12)]
+pub(crate) fn from_utf8_len2() {
+    from_utf8_matches_std(2);
+}
+#[kani::proof]
+#[kani::unwind(12)]
+pub(crate) fn from_utf8_len3() {
+    from_utf8_matches_std(3);
+}
+#[kani::proof]
+#[kani::unwind(12)]
+pub(crate) fn from_utf8_len4() {
+    from_utf8_matches_std(4);
+}
+
 /// UTF-8 validity for the short strings used here (independent, simple decoder)
 pub(crate) fn valid_utf8(b: &[u8]) -> bool {
     let mut i = 0;
@@ -675,6 +1031,10 @@ pub(crate) fn valid_utf8(b: &[u8]) -> bool {
                 return false;
             }
             k += 1;
+        }
+        // overlong encodings, surrogates and values above U+10FFFF
+        if (c == 0xE0 && b[i + 1] < 0xA0) || (c == 0xED && b[i + 1] > 0x9F) || (c == 0xF0 && b[i + 1] < 0x90) || (c == 0xF4 && b[i + 1] > 0x8F) {
+            return false;
         }
         i += n;
         steps += 1;
